@@ -230,6 +230,22 @@ func (r *Reader) Close() error {
 	return r.file.Close()
 }
 
+// endsCleanly reports whether the WAL file can be read up to its end: it holds
+// no damaged record and does not end inside an entry
+func endsCleanly(path string) bool {
+	reader, err := OpenReader(path)
+	if err != nil {
+		return false
+	}
+	defer reader.Close()
+
+	for {
+		if _, err := reader.ReadEntry(); err != nil {
+			return err == io.EOF
+		}
+	}
+}
+
 // EntryHandler is a function that processes WAL entries during replay
 type EntryHandler func(*Entry) error
 
